@@ -795,7 +795,9 @@ func (x *rsExec) doStart(step int, op rsOp) {
 	x.checkAfterStep(step, es)
 }
 
-func (x *rsExec) doPair(step int, name string, key []byte, del bool) { x.doPairAs(step, name, key, del, false) }
+func (x *rsExec) doPair(step int, name string, key []byte, del bool) {
+	x.doPairAs(step, name, key, del, false)
+}
 
 // doPairAs: self = the pairing names the accessory's own device id. Such a request is refused (F16 repair): the
 // controller returns an error (the endpoint answers 500 and emits no event) and nothing changes.
